@@ -735,6 +735,10 @@ class TrialDataManager(object):
             The instance of ParameterModelMapper that defines the global
             parameters and their mapping to local source parameter.
         """
+        # The sources changed, hence the state of the trial data changed, even
+        # if there are no source data fields to re-calculate.
+        self._trial_data_state_id += 1
+
         self.calculate_source_data_fields(
             shg_mgr=shg_mgr,
             pmm=pmm)
@@ -774,6 +778,11 @@ class TrialDataManager(object):
             The optional TimeLord instance that should be used for timing
             measurements.
         """
+        # New events define a new state of the trial data, even if there are no
+        # data fields to calculate. Caches that are tagged with the trial data
+        # state ID must not survive a new trial.
+        self._trial_data_state_id += 1
+
         # Set the events property, so that the calculation functions of the data
         # fields can access them.
         self.events = events
